@@ -122,7 +122,8 @@ func IdentityFromRelativeURI(uri string) (*resource.Identity, error) {
 		return resource.NewIdentity(uriParts[0], uriParts[1], "")
 	case 4:
 		// e.g. Patient/123/_history/abc
-		if uriParts[2] != "_history" {
+		if uriParts[2] != "_history" || uriParts[3] == "" {
+			// "Patient/123/_history/" names no version: it is not Patient/123.
 			break
 		}
 		return resource.NewIdentity(uriParts[0], uriParts[1], uriParts[3])
